@@ -127,6 +127,9 @@ RecvEv(e) ==
         /\ Chk({"C01", "C08", "C09"}, "forged-rejected", e.res \in {"ignored", "err", "errinit", "panic"})
         /\ Chk({"C01", "C08", "C09"}, "forged-leaves-no-state", Same(pre, obs) /\ SeqSet(e.post.pend) = pre.pend)
         /\ Chk({"C01", "C08", "C09"}, "forged-no-reply", e.sent = <<>> /\ e.wrote = 0))
+  \* C09: whatever an attacker injects (verbatim replay or fabricated, any claimed source: id 0 = not delivered by the
+  \* network on behalf of a node), peers and routes are exactly what the protocol prescribes for that datagram
+  /\ When(e.id = 0, Chk({"C09"}, "injected-keeps-peers-and-routes", Addrs(obs.peers) = Addrs(pred.peers) /\ obs.claims = pred.claims))
   \* effects per result
   /\ Compare("recv-" \o e.res, pred, obs)
   /\ Unless(e.tagerr,
@@ -144,6 +147,9 @@ RecvEv(e) ==
         Chk({"C05", "C01"}, "handshake-info-origin", genuine /\ e.info.nid = e.orig))
   /\ When(e.res = "nodeinfo" /\ genuine /\ KnownInst(e.info.nid),
         Chk({"C12"}, "announcement-is-the-configured-claims", e.info.claims = InstOf(e.info.nid).claims /\ e.info.nid = e.orig))
+  \* C14: every peer the message lists that is neither connected nor the node itself is dialled, nothing else is
+  /\ When(e.res \in {"nodeinfo", "initialized", "initialized-reply"},
+        Chk({"C14"}, "peer-list-dials", Addrs(obs.pend) = Addrs(pred.pend)))
   \* C15: only node information and keepalive messages (and the handshake) refresh a peer
   /\ When(e.res \in {"data", "none", "err", "errinit", "ignored", "reply"},
         Chk({"C15"}, "only-announcements-refresh", Expiry(obs.peers) = Expiry(pre.peers)))
